@@ -11,12 +11,13 @@ Trace == ndJsonDeserialize(IOEnv.TRACE)
 VARIABLES l,
           hm    \* the block table of the current case's latest "reify" line (HostileOps), empty when it is not modelled
 tvars == <<l, hm>>
-NoModel == [H |-> <<>>, root |-> 0, dg |-> <<>>, ok |-> FALSE]
+NoModel == [H |-> <<>>, root |-> 0, dg |-> <<>>, ok |-> FALSE, FH |-> <<>>, froot |-> 0, fok |-> FALSE]
 TInit == l = 1 /\ hm = NoModel
 IsEv(e) == l <= Len(Trace) /\ Trace[l].ev = e /\ l' = l + 1
 TNext == \/ IsEv("crash") /\ UNCHANGED hm
          \/ IsEv("reset") /\ hm' = NoModel
-         \/ IsEv("reify") /\ hm' = [H |-> Trace[l].H, root |-> Trace[l].hroot, dg |-> Trace[l].hdigits, ok |-> Trace[l].res = "hamtdir"]
+         \/ IsEv("reify") /\ hm' = [H |-> Trace[l].H, root |-> Trace[l].hroot, dg |-> Trace[l].hdigits, ok |-> Trace[l].res = "hamtdir",
+                                  FH |-> Trace[l].FH, froot |-> Trace[l].fhroot, fok |-> Trace[l].res = "file"]
          \/ IsEv("hop") /\ UNCHANGED hm
          \/ (l = Len(Trace) + 1 /\ UNCHANGED tvars)
 TraceSpec == TInit /\ [][TNext]_tvars
@@ -51,6 +52,17 @@ Cond_X_HamtLength == (IsH /\ Modelled /\ Ev.op = "length" /\ Ev.n >= 0) => Ev.n 
 Cond_X_HamtIter == (IsH /\ Modelled /\ Ev.op = "iter-map" /\ Ev.out = "value") =>
     LET r == HO!Iter(hm.H, hm.root) IN Ev.steps = Len(r) /\ Ev.errs = HO!CountOf(r, "e")
 
+\* ... and of reading a hostile file DAG as a whole (FileHostileOps): lazy reification of a file root always succeeds,
+\* the preloading one (of a root of type File) exactly when reading everything succeeds; AsBytes delivers the predicted number of bytes or fails
+FO == INSTANCE FileHostileOps
+Cond_X_FileReify == (IsR /\ Ev.fhroot # 0 /\ Ev.res \in {"file", "error"}) =>
+    \* (the preloading reifier reads a root of type File through; a root of type Raw is opened lazily even there)
+    ((Ev.res = "file") <=> ((Ev.variant = "preload" /\ Ev.FH[Ev.fhroot].typ = 2) => FO!ReadAll(Ev.FH, Ev.fhroot).ok))
+Cond_X_FileBytes == (IsH /\ hm.froot # 0 /\ hm.fok /\ Ev.op = "asbytes" /\ Ev.out \in {"value", "error"}) =>
+    LET r == FO!ReadAll(hm.FH, hm.froot) IN
+    /\ (Ev.out = "value") <=> r.ok
+    /\ r.ok => Ev.steps = r.n
+
 Chk(nm, c) == c \/ PrintT(<<"VIOL", nm, l - 1>>)
 Inv_NoPanic == Chk("Inv_NoPanic", Cond_NoPanic)
 Inv_C14_Typed_T == Chk("Inv_C14_Typed_T", Cond_C14_Typed)
@@ -61,6 +73,8 @@ Inv_X_HamtReify == Chk("Inv_X_HamtReify", Cond_X_HamtReify)
 Inv_X_HamtLookup == Chk("Inv_X_HamtLookup", Cond_X_HamtLookup)
 Inv_X_HamtLength == Chk("Inv_X_HamtLength", Cond_X_HamtLength)
 Inv_X_HamtIter == Chk("Inv_X_HamtIter", Cond_X_HamtIter)
+Inv_X_FileReify == Chk("Inv_X_FileReify", Cond_X_FileReify)
+Inv_X_FileBytes == Chk("Inv_X_FileBytes", Cond_X_FileBytes)
 Inv_X_ADLBytes == Chk("Inv_X_ADLBytes", Cond_X_ADLBytes)
 Inv_X_ADLBytesLength == Chk("Inv_X_ADLBytesLength", Cond_X_ADLBytesLength)
 Inv_X_ADLMap == Chk("Inv_X_ADLMap", Cond_X_ADLMap)
